@@ -56,6 +56,8 @@ NVvals(name, vs) == Mk("vvals", 0, name, NoVal, vs, <<>>, <<>>, "")
 NVar(k, name)   == Mk(k, 0, name, NoVal, <<>>, <<>>, <<>>, "")        \* "vload" "vsize"
 NBody(k, b)     == Mk(k, 0, <<>>, NoVal, <<>>, b, <<>>, "")           \* "macro" "ct" "ctx"
 NCmt            == Mk("cmt", 0, <<>>, NoVal, <<>>, <<>>, <<>>, "")
+\* a macro with one parameter, template "OP_PUSH a OP_TRUE", invoked once per value of vs
+NMacroP(id, vs) == Mk("macrop", id, <<>>, NoVal, vs, <<>>, <<>>, "")
 
 \* bytes of a value where a general value is expected (PUSH, size-prefixed operands)
 ValBytes(v) == IF v.k = "d" THEN EncS(FromInt(v.i)) ELSE v.b
@@ -92,6 +94,7 @@ Enc(x) ==
       [] x.n = "vload" -> <<10, Len(x.y)>> \o x.y
       [] x.n = "vsize" -> <<11, Len(x.y)>> \o x.y
       [] x.n = "macro" -> EncSeq(x.b)
+      [] x.n = "macrop" -> EncSeq([i \in 1..(2 * Len(x.vs)) |-> IF i % 2 = 1 THEN NPush(x.vs[(i + 1) \div 2]) ELSE NOp0(1)])
       [] x.n = "ct"   -> PushOf(EncSeq(x.b))
       [] x.n = "ctx"  -> IF CtxValue(x.b) = <<>> THEN <<>> ELSE PushOf(CtxValue(x.b)[1])
       [] x.n = "cmt"  -> <<>>
@@ -108,7 +111,7 @@ Encodable(x) ==
       [] x.n \in {"if", "loop", "def", "macro", "ct", "ctx"} -> EncodableSeq(x.b) /\ Len(EncSeq(x.b)) < 65536
                                                                 /\ (x.n # "if" \/ EncodableSeq(x.c))
       [] x.n \in {"ife", "try"} -> EncodableSeq(x.b) /\ EncodableSeq(x.c) /\ Len(EncSeq(x.b)) < 65536 /\ Len(EncSeq(x.c)) < 65536
-      [] x.n = "vvals" -> \A i \in 1..Len(x.vs) : Encodable(NPush(x.vs[i]))
+      [] x.n \in {"vvals", "macrop"} -> \A i \in 1..Len(x.vs) : Encodable(NPush(x.vs[i]))
       [] OTHER -> TRUE
 
 \* ---- rendering to token sequences ------------------------------------------------------
@@ -128,6 +131,8 @@ ValTok(v) == CASE v.k = "d" -> "d" \o ToString(v.i)
                [] v.k = "x" -> "x" \o Hex(v.b)
                [] v.k = "s" -> "s\"" \o Text(v.b) \o "\""
 
+RECURSIVE SeqFlat(_)
+SeqFlat(ss) == IF ss = <<>> THEN <<>> ELSE Head(ss) \o SeqFlat(Tail(ss))
 RECURSIVE Toks(_), ToksSeq(_)
 ToksSeq(ns) == IF ns = <<>> THEN <<>> ELSE Toks(Head(ns)) \o ToksSeq(Tail(ns))
 Toks(x) ==
@@ -159,6 +164,8 @@ Toks(x) ==
       \* (a = number of the macro: a program must not define one name twice, the preprocessor
       \*  collects every definition before anything is assembled)
       [] x.n = "macro" -> <<"!=", "mm" \o ToString(x.a), "[", "]", "{">> \o ToksSeq(x.b) \o <<"}", "!mm" \o ToString(x.a), "[", "]">>
+      [] x.n = "macrop" -> <<"!=", "mp" \o ToString(x.a), "[", "a", "]", "{", "OP_PUSH", "a", "OP_TRUE", "}">>
+                           \o SeqFlat([i \in 1..Len(x.vs) |-> <<"!mp" \o ToString(x.a), "[", ValTok(x.vs[i]), "]">>])
       [] x.n = "ct"   -> <<"OP_PUSH", "~", "{">> \o ToksSeq(x.b) \o <<"}">>
       [] x.n = "ctx"  -> <<"OP_PUSH", "~!", "{">> \o ToksSeq(x.b) \o <<"}">>
       [] x.n = "cmt"  -> <<"#", "a", "comment", "#">>
